@@ -665,6 +665,15 @@ class Exec:
                 if handled:
                     return
 
+        # -- Result/Option projections are rewritten to payload terms so that `r.ok().unwrap()`, `r.unwrap()`,
+        #    `match r { Ok(x) => .. }` all denote the same value
+        proj = _project(nt, args)
+        if proj is not None:
+            st.events.append(Event("call", bb, frame, body, target=target, ntarget=nt, args=args, result=proj, callee=c,
+                                   span=span, fterm=None, pure=True))
+            for r in cont(st, proj):
+                yield r
+            return
         # -- opaque call
         pure = (nt in PURE_EXTERNAL) or (target in self.pure) or (nt in self.pure)
         uid = None if pure else fresh()
@@ -817,6 +826,30 @@ def _range_update(st, key, v):
     elif op == "Ge":
         lo = max(lo, c)
     st.ranges[x] = (lo, hi, ne)
+
+
+def _project(nt, args):
+    """Result::ok/err/unwrap/unwrap_err/expect and Option::unwrap/expect as payload projections."""
+    if not args:
+        return None
+    a = args[0]
+    if nt in ("std::result::Result::ok",):
+        return ("okopt", a)
+    if nt in ("std::result::Result::err",):
+        return ("erropt", a)
+    if nt in ("std::result::Result::unwrap", "std::result::Result::expect", "std::result::Result::unwrap_unchecked"):
+        return ("field", "0", ("variant", "Ok", a))
+    if nt in ("std::result::Result::unwrap_err", "std::result::Result::expect_err"):
+        return ("field", "0", ("variant", "Err", a))
+    if nt in ("std::option::Option::unwrap", "std::option::Option::expect", "std::option::Option::unwrap_unchecked"):
+        if isinstance(a, tuple) and a[0] == "okopt":
+            return ("field", "0", ("variant", "Ok", a[1]))
+        if isinstance(a, tuple) and a[0] == "erropt":
+            return ("field", "0", ("variant", "Err", a[1]))
+        if isinstance(a, tuple) and a[0] == "agg" and a[2] == "Some" and a[3]:
+            return a[3][0]
+        return ("field", "0", ("variant", "Some", a))
+    return None
 
 
 def _consistent(known, v):
